@@ -716,8 +716,11 @@ impl Scaler for FreeTypeScaler<'_> {
         }
         if points_start != 0 {
             // If we're not the first component, shift our contour end points.
+            // Contour end points are not validated on load so a malformed
+            // glyph may cause this to overflow. Use wrapping arithmetic and
+            // let the path conversion reject out of order end points.
             for contour_end in contours.iter_mut() {
-                *contour_end += points_start as u16;
+                *contour_end = contour_end.wrapping_add(points_start as u16);
             }
         }
         Ok(())
@@ -1124,8 +1127,11 @@ impl Scaler for HarfBuzzScaler<'_> {
 
         if points_start != 0 {
             // If we're not the first component, shift our contour end points.
+            // Contour end points are not validated on load so a malformed
+            // glyph may cause this to overflow. Use wrapping arithmetic and
+            // let the path conversion reject out of order end points.
             for contour_end in contours.iter_mut() {
-                *contour_end += points_start as u16;
+                *contour_end = contour_end.wrapping_add(points_start as u16);
             }
         }
         Ok(())
